@@ -122,9 +122,9 @@ def senderadd(sender, recip):
 
 # ----------------------------------------------------------------- workload generators
 
-POOL = [b"a.test", b"b.a.test", b"c.b.a.test", b"x.org", b"mail.x.org", b"fax"]
+POOL = [b"a.test", b"b.a.test", b"c.b.a.test", b"x.org", b"mail.x.org", b"fax", b"quiz.jazz.org", b"abcdefghijklm.nopqrstuvwxyz.test"]
 PREPENDS = [b"alias-v", b"joe", b"u-x", b"Virt", b"fax-relay", b"j"]
-USERS = [b"user", b"User", b"joe-x", b"info", b"a.b", b"U", b".joe", b"", b"x y", b"we\"ird", b"\xe9t\xe9", b"tab\tbed"]
+USERS = [b"user", b"User", b"joe-x", b"liz", b"info", b"a.b", b"U", b".joe", b"", b"x y", b"we\"ird", b"\xe9t\xe9", b"tab\tbed"]
 
 
 def flipcase(rng, b, p=0.3):
@@ -149,7 +149,7 @@ def gen_maps(rng, names):
             d = rng.choice(names)
             kind = rng.choice("udwwcU")
             if kind == "u":
-                key = rng.choice(USERS[:7]) + b"@" + d          # ".joe@dom" is a virtual user, not a wildcard
+                key = rng.choice(USERS[:8]) + b"@" + d          # ".joe@dom" is a virtual user, not a wildcard
             elif kind == "U":
                 key = rng.choice([b"user%a.test", b"a@b", b"u%x.org"]) + b"@" + d   # rewritten / odd full addresses
             elif kind == "d":
@@ -353,7 +353,7 @@ def changed_addresses(rng, before, after):
             continue
         d = d.lstrip(b".") if d.startswith(b".") and rng.random() < 0.5 else (b"sub" + d if d.startswith(b".") else d)
         if d:
-            out.append(rng.choice(USERS[:5]) + b"@" + d)
+            out.append(rng.choice(USERS[:6]) + b"@" + d)
     return [a for a in out if b"\0" not in a]
 
 
